@@ -52,7 +52,9 @@ func genC05(g *core.Gen) {
 			if kind == "ondup" && (q == "alias" || q == "unknown" || q == "baddb") {
 				q = "none"
 			}
-			ts = append(ts, core.L(core.A(q), core.Text(core.Pick(g, c05Names))))
+			// the assigned value: a literal, VALUES(col), an expression over the key, another column.
+			// The decision must not depend on it.
+			ts = append(ts, core.L(core.A(q), core.Text(core.Pick(g, c05Names)), core.I(int64(g.Intn(len(c05Values))))))
 		}
 		g.Emit(core.L(core.A("assign"), core.A(kind), core.L(ts...)), "assign", "assign-"+kind)
 	}
@@ -87,7 +89,7 @@ func genC05(g *core.Gen) {
 			rows = append(rows, core.L(core.I(k), core.I(o), core.I(int64(idx))))
 		}
 		stmt := core.Pick(g, stmts)
-		in := core.L(core.A("exec"), core.A(r.name), core.I(int64(g.Intn(4))), core.A(stmt), c01Meta(rule), cond, core.L(append([]core.Sexp{core.A("rows")}, rows...)...))
+		in := core.L(core.A("exec"), core.A(r.name), core.I(int64(g.Intn(5))), core.A(stmt), c01Meta(rule), cond, core.L(append([]core.Sexp{core.A("rows")}, rows...)...))
 		g.Emit(in, "exec", "exec-rule="+r.name, "exec-"+stmt)
 	}
 	// 4. routing of UPDATE/DELETE on every rule kind (same lines as C01)
@@ -100,7 +102,7 @@ func genC05(g *core.Gen) {
 		}
 		cond := ctx.genCond(g, g.Intn(g.Scale(4, 6)+1))
 		stmt := core.Pick(g, stmts)
-		in := core.L(core.A("route"), core.A(r.name), core.I(int64(ctx.colType)), core.I(int64(g.Intn(4))), core.A(stmt), c01Meta(rule), cond, ctx.universe())
+		in := core.L(core.A("route"), core.A(r.name), core.I(int64(ctx.colType)), core.I(int64(g.Intn(5))), core.A(stmt), c01Meta(rule), cond, ctx.universe())
 		g.Emit(in, "route", "route-rule="+r.name)
 	}
 }
@@ -140,6 +142,9 @@ func execC05(in core.Sexp) string {
 	return "bad"
 }
 
+// right-hand sides of generated assignments (index 0: an integer literal)
+var c05Values = []string{"", "k + 1", "o", "abs(o)", "VALUES(o)", "VALUES(k)"}
+
 func c05Assign(in core.Sexp) string {
 	rt, err := c01GetRouter()
 	if err != nil {
@@ -162,7 +167,17 @@ func c05Assign(in core.Sexp) string {
 		case "baddb":
 			col = "nodb.t_mod." + name
 		}
-		sets = append(sets, fmt.Sprintf("%s = %d", col, i+1))
+		val := strconv.Itoa(i + 1)
+		if len(t.List) > 2 {
+			vi := int(t.Nth(2).Int()) % len(c05Values)
+			if kind != "ondup" {
+				vi %= 4 // VALUES(col) only exists in ON DUPLICATE KEY UPDATE
+			}
+			if vi > 0 {
+				val = c05Values[vi]
+			}
+		}
+		sets = append(sets, col+" = "+val)
 	}
 	var sql string
 	if kind == "ondup" {
@@ -464,7 +479,7 @@ func c05Exec(in core.Sexp) string {
 	if err != nil {
 		return "(parse-error " + core.Text(sql).String() + ")"
 	}
-	p, err := plan.BuildPlan(node, map[string]string{"db_ks": "db_ks", "db_mycat": "db_mycat_0"}, r.db, sql, rt, sequence.NewSequenceManager(), nil)
+	p, err := plan.BuildPlan(node, map[string]string{"db_ks": "db_ks", "db_mycat": "db_mycat_0"}, c01SessionDB(r, form), sql, rt, sequence.NewSequenceManager(), nil)
 	if err != nil {
 		return "err"
 	}
